@@ -1,36 +1,55 @@
 """C25 — the gateware full-speed PHY encodes and decodes USB line signalling (luna/gateware/interface/gateware_phy/).
 
 The PHY mixes the 12 MHz `usb` and the 48 MHz `usb_io` domain; one engine step ticks every domain of a unit at once.  The
-property is therefore decomposed (LEVEL "other"):
+property is therefore decomposed into contracts that each talk about ONE clock domain (LEVEL "other"):
 
- proved, unbounded (1-induction on the real elaborate() of each class, each unit lives in ONE clock domain):
-   TxShifter(8)          bytes are serialised LSB first, one byte per 8 enabled bit times, loaded (accepted) exactly once
-   TxBitstuffer          a 0 is stuffed after six consecutive 1s (stall exactly then, counter restarts after the stuffed bit)
-   TxNRZIEncoder         NRZI (0 = transition, 1 = no transition, first bit after idle is K), SE0-SE0-J end of packet, then
-                         the bus is released; D+/D- outputs per bit strobe
-   TxPipeline[usb part]  the whole 12 MHz half of the transmitter (real shifter + bit-stuffer + controller) against a
-                         reference serialiser taken from the statement: SYNC 00000001, then the accepted bytes LSB first
-                         with stuffed zeros, o_data_strobe exactly once per byte, output enable until the last bit;
-                         observed at the class's `fit_dat` / `fit_oe` outputs, i.e. before the clock-domain crossing
-   RxNRZIDecoder         1 = no transition / 0 = transition between consecutive sampled line states, SE0 flag
-   RxPacketDetect        receive-active framing: start after (at least five) 0s followed by a 1 of the SYNC, end at SE0
-   RxBitstuffRemover     the bit after six 1s is dropped; if that bit is a 1 a bit-stuffing error is reported
-   RxShifter(8)          eight delivered bits make one byte (first bit = LSB after the pipeline's bit reversal), o_put once
-   GatewarePHY           (receiver replaced by an open stub, see below) never drives D+/D- in the UTMI non-driving mode;
-                         pull-up / pull-down outputs follow term_select / dp,dm_pulldown
+ proved, unbounded (1-induction on the real elaborate() of each class):
+   TxShifter(8)           bytes are serialised LSB first, one byte per 8 enabled bit times, loaded (accepted) exactly once
+   TxBitstuffer           a 0 is stuffed after six consecutive 1s (stall exactly then, counter restarts after the stuffed bit)
+   TxNRZIEncoder          NRZI (0 = transition, 1 = none, first bit after idle is K), SE0-SE0-J end of packet, then release
+   TxPipeline/usb_domain  the whole 12 MHz half of the real TxPipeline (controller + real shifter + real bit-stuffer) against
+                          a reference serialiser written from the statement: SYNC 00000001, the accepted bytes LSB first with
+                          stuffed zeros, o_data_strobe (tx_ready) exactly once per byte and for the byte that is serialised,
+                          output enable up to the last (possibly stuffed) bit; observed at the class's fit_dat / fit_oe
+                          outputs, i.e. before the clock-domain crossing.  Requires the UTMI producer protocol.
+   RxNRZIDecoder          1 = no transition / 0 = transition between consecutive sampled line states, SE0 flag
+   RxPacketDetect         receive-active framing: start at the 1 ending (at least five) 0s of the SYNC, end at SE0
+   RxBitstuffRemover      the bit after six 1s is dropped; if that bit is a 1 a bit-stuffing error is reported
+   RxShifter(8)           eight delivered bits make one byte (first bit = LSB after the pipeline's bit reversal), o_put once
+   RxClockDataRecovery    ONLY two safety facts used by the others, for all inputs: bit strobes are never adjacent, a sampled
+                          line state is one-hot
+   RxPipeline/usb_io      the 48 MHz half of the real RxPipeline from the *sampled line states* to the write ports of the
+                          crossing FIFOs (real decoder, detector, un-stuffer, shifter and their glue) against a reference
+                          deserialiser: one write per 8 de-stuffed bits between SYNC and EOP, byte value, start/end flags,
+                          bit-stuff error; plus the 12 MHz side wiring (in-progress flag, read enables)
+   GatewarePHY            never drives D+/D- in the UTMI non-driving mode; pull-up / pull-down outputs follow term_select /
+                          dp,dm_pulldown; normal-mode wiring of transmitter and receiver to the UTMI ports
 
- NOT proved (outside, listed in BOUNDED/EXPLANATION and in the claims note):
-   * RxClockDataRecovery under +-0.25 % drift / arbitrary sampling phase (analogue timing; not a property of the netlist
-     alone) — not modelled at all;
-   * the 48 MHz half of TxPipeline as a composite (3-stage FFSynchronizer + bit strobe every 4th usb_io cycle in phase
-     with the usb clock): only the NRZI block is proved; the 4:1 clock-ratio composition is an assumption;
-   * RxPipeline as a composite and its AsyncFIFOBuffered crossings (asynchronous-reset flip-flops: outside the
-     extractor's subset) — "delivered as exactly its bytes" is proved block-wise only, not end to end;
-   * the end-to-end transmit->receive round trip.
+ NOT proved (see NOT_PROVED / BOUNDED):
+   * RxClockDataRecovery samples every bit exactly once for every phase and +-0.25 % drift (analogue timing) — outside;
+   * the 48 MHz half of TxPipeline as a composite: 3-stage FFSynchronizer + bit strobe every 4th usb_io cycle in phase with
+     the usb clock (only the NRZI block is proved; the 4:1 clock-ratio composition is an assumption);
+   * the AsyncFIFOBuffered crossings of RxPipeline (asynchronous-reset flip-flops: outside the extractor's subset), i.e.
+     "every byte written on the usb_io side is read exactly once, in order, on the usb side";
+   * hence the end-to-end statements "appears on D+/D-" and "is delivered as exactly its bytes" hold block-wise and per
+     clock domain only; no transmit->receive round trip.
 
-GatewarePHY contains RxPipeline (AsyncFIFOBuffered => asynchronous reset => not extractable).  For the op-mode / pull-up /
-pull-down clauses the real GatewarePHY.elaborate() is run with `RxPipeline` replaced by an *open stub* (same ports, no
-logic: its outputs become unconstrained inputs).  This only adds behaviours; the clauses do not depend on the receiver.
+Open stubs.  RxPipeline (inside GatewarePHY), RxClockDataRecovery and AsyncFIFOBuffered (inside RxPipeline) are replaced,
+while the REAL parent elaborate() runs, by port-only stand-ins whose outputs are free inputs of the netlist.  This only adds
+behaviours (sound for the safety clauses here) and models no repo code.
+
+Obligations that FAIL on the unchanged tree (three genuine defects, each replayed from reset on Amaranth's simulator):
+  * TxPipeline/usb_domain cons/shifter_holds_byte (witness violates `accepted_exactly_once` / `serial_bits`): the bit
+    stuffer is never reset (ResetInserter(da_reset_bitstuff) targets the non-existent `sync` domain and the signal is
+    never driven) and watches the free-running shifter between packets; six 1s shifted out during SYNC (e.g. first byte
+    0x7E/0xFE held on tx_data) stall the shifter in the cycle in which the first byte should be loaded: a spurious 0 bit
+    follows the SYNC and tx_ready comes a bit late.              fix: proposed_fixes/C25_tx_first_byte_stalled_by_stale_bitstuff.diff
+  * GatewarePHY post/never_drives_in_non_driving_mode: OP_MODE_NONDRIVING / OP_MODE_NO_ENCODING constants are swapped
+    with respect to UTMI (01 = non-driving, 10 = no bit-stuff/NRZI): with op_mode = 01 and tx_valid the PHY drives.
+  * GatewarePHY post/pullup_follows_term_select, post/pulldown_follows_requests: the pull-down request is assigned to the
+    pull-UP output (overriding term_select) and the pull-down output is never driven.
+                                                                  fix: proposed_fixes/C25_phy_opmode_constants_and_pulldown.diff
+With proposed_fixes/C25_all.diff every obligation is discharged.
 """
 import z3
 from hwv.contract import B, zx, bvc, bv1, bits
@@ -38,6 +57,21 @@ from luna.gateware.interface.gateware_phy.transmitter import TxShifter, TxBitstu
 from luna.gateware.interface.gateware_phy.receiver import RxNRZIDecoder, RxBitstuffRemover, RxShifter, RxPacketDetect
 
 LEVEL = "other"
+NOT_PROVED = [
+    "RxClockDataRecovery: every bit of a packet is sampled exactly once for all sampling phases and +-0.25% drift (outside: analogue timing)",
+    "TxPipeline usb_io half as a composite (FFSynchronizer + NRZI with a bit strobe every 4th usb_io cycle): 4:1 clock ratio assumed, only the NRZI block proved",
+    "AsyncFIFOBuffered crossings in RxPipeline (asynchronous resets: outside the extractor subset): bytes/flags written on the usb_io side are read once, in order, on the usb side",
+    "end-to-end D+/D- <-> UTMI byte statements and the transmit->receive round trip (proved per block / per clock domain only)",
+]
+BOUNDED = ["not proved (no bounded stand-in either): " + x for x in NOT_PROVED]
+EXPLANATION = ("Block contracts and two single-domain composites (TxPipeline 12 MHz half, RxPipeline 48 MHz half) proved by "
+               "1-induction on the netlists of the real classes against bit-level reference (de)serialisers written from the "
+               "statement; GatewarePHY op-mode / pull-up / pull-down / wiring clauses are combinational.  Clock-data recovery "
+               "under drift, the asynchronous FIFOs and the 4:1 composition of the two clock domains are NOT proved: " +
+               "; ".join(NOT_PROVED))
+ASSUMPTIONS = ["usb_io is 4x usb and phase related (GatewarePHY docstring); not used by any proved clause, needed to compose them",
+               "UTMI transmit producer holds TXValid/TXData until TXReady (TxPipeline composite)",
+               "sampled line states contain no SE1 (correctly encoded packet)"]
 
 
 def ite(cond, a, b):
@@ -317,6 +351,13 @@ def tx_pipeline_usb(c):
              clause="accepted byte-by-byte exactly once: tx_ready is raised in exactly one bit time per serialised byte")
     c.ensure("accepted_byte_is_the_serialised_byte", z3.Implies(ref_strobe, pay == gb),
              clause="each byte handed to the PHY (the TXData value at its TXReady) is the byte that appears on the wire")
+    # 48 MHz half, glue only: the serial stream reaches the (separately proved) NRZI encoder as a pure 3-cycle delay
+    c.ensure("crossing_is_a_three_cycle_delay", z3.And(c.nx(ts.sig("nrzi.i_data"), 3) == O["fit_dat"],
+                                                       c.nx(ts.sig("nrzi.i_oe"), 3) == O["fit_oe"]),
+             clause="(glue) the bits and the output enable reach the NRZI encoder unchanged, three usb_io cycles later")
+    c.ensure("nrzi_glue", z3.And(ts.sig("nrzi.i_valid") == I["i_bit_strobe"], O["o_usbp"] == ts.sig("nrzi.o_usbp"),
+                                 O["o_usbn"] == ts.sig("nrzi.o_usbn"), O["o_oe"] == ts.sig("nrzi.o_oe")),
+             clause="(glue) the encoder advances on the bit strobe and drives the pipeline's D+/D-/oe outputs")
     c.cover("sync_done", z3.And(sph == SYNC, scnt == 7))
     c.cover("strobe", ref_strobe)
     c.cover("second_byte", z3.And(last_bit, oe))
@@ -343,6 +384,7 @@ def rx_cdr_safety(c):
     phase = ts.sig("line_state_phase")
     c.inv("fsm_legal", fsm.legal())
     c.inv("valid_means_phase_2", z3.Implies(O["o_valid"] == 1, phase == 2))
+    c.inv("after_valid_phase_3_or_realigned", z3.Implies(pv == 1, z3.Or(phase == 3, phase == 0)))
     names = ["o_dj", "o_dk", "o_se0", "o_se1"]
     onehot = z3.Or(*[z3.And(*[O[m] == (1 if m == n else 0) for m in names]) for n in names])
     c.inv("line_state_at_most_one_hot", z3.Or(onehot, z3.And(*[O[m] == 0 for m in names])))
@@ -566,6 +608,9 @@ def phy(with_pullup, with_pulldown, with_vbus):
                                    sig("tx_ready") == ts.of(txo.o_data_strobe),
                                    ts.of(txo.i_data_payload) == I["tx_data"], ts.of(txo.i_oe) == I["tx_valid"])),
                  clause="in normal mode D+/D-/output-enable and tx_ready are those of the transmit pipeline fed with tx_data/tx_valid")
+        counter = ts.sig("counter")
+        c.ensure("bit_strobe_every_fourth_cycle", z3.And(ts.of(txo.i_bit_strobe) == bv1(counter == 0), c.nx(counter) == counter + 1),
+                 clause="(glue) the transmit bit strobe is one usb_io cycle in four (12 MHz bit rate)")
         if with_pullup:
             c.ensure("pullup_follows_term_select", sig("pullup_o") == I["term_select"],
                      clause="its pull-up output follows the termination request")
@@ -586,6 +631,15 @@ def phy(with_pullup, with_pulldown, with_vbus):
 
 
 def contracts(tier):
+    """HWV_ONLY_UNITS=<comma separated unit names> restricts the run to those units (development aid for mutation runs)."""
+    import os
+    only = [x for x in os.environ.get("HWV_ONLY_UNITS", "").split(",") if x]
+    for entry in _contracts(tier):
+        if not only or entry[0] in only:
+            yield entry
+
+
+def _contracts(tier):
     yield ("TxShifter", "w8", tx_shifter)
     yield ("TxBitstuffer", "", tx_bitstuffer)
     yield ("TxNRZIEncoder", "", tx_nrzi)
